@@ -56,13 +56,15 @@ func newNfEnv() *nfEnv {
 	e.mintR, e.updR = verifBool("mintRestricted"), verifBool("updateRestricted")
 	_, err := e.k.IssueDenom(e.ctx, &types.MsgIssueDenom{Id: nfClass, Name: "Kitties", Schema: "", Sender: e.creator.String(), Symbol: "kit",
 		MintRestricted: e.mintR, UpdateRestricted: e.updR, Description: "d", Uri: "u", UriHash: "h", Data: "data"})
+	verifAssert(err == nil, "anybody can issue a new class")
 	if err != nil {
-		verifFail("class creation failed")
+		verifAssume(false)
 	}
 	// the creator mints the first token to bob
 	_, err = e.k.MintNFT(e.ctx, &types.MsgMintNFT{Id: nfToken, DenomId: nfClass, Name: "n", URI: "uri", UriHash: "uh", Data: `{"k":"old"}`, Sender: e.creator.String(), Recipient: e.owner.String()})
+	verifAssert(err == nil, "the class creator can mint into its class, restricted or not, to any recipient")
 	if err != nil {
-		verifFail("first mint failed")
+		verifAssume(false)
 	}
 	return e
 }
@@ -95,7 +97,9 @@ func VerifC14_Mint() {
 	e := newNfEnv()
 	actor, who := e.actor("actor")
 	id := []string{"kitty2", nfToken}[verifChoice("idTaken", 2)]
-	msg := &types.MsgMintNFT{Id: id, DenomId: nfClass, Name: "n2", URI: "uri2", UriHash: "uh2", Data: `{"k":"v"}`, Sender: actor.String(), Recipient: e.stranger.String()}
+	// the recipient: a third party, the class creator, or the sender itself
+	recipient := []sdk.AccAddress{e.stranger, e.creator, actor}[verifChoice("recipient", 3)]
+	msg := &types.MsgMintNFT{Id: id, DenomId: nfClass, Name: "n2", URI: "uri2", UriHash: "uh2", Data: `{"k":"v"}`, Sender: actor.String(), Recipient: recipient.String()}
 	verifAssume(msg.ValidateBasic() == nil)
 	err, _ := e.verifDeliver(func() error { _, err := e.k.MintNFT(e.ctx, msg); return err })
 	e.assertCounts()
@@ -103,12 +107,13 @@ func VerifC14_Mint() {
 	if err != nil {
 		verifCover("refused")
 		verifAssert(id == nfToken || !e.k.HasNFT(e.ctx, nfClass, id), "a refused mint creates nothing")
+		verifAssert(!(id != nfToken && (who == "creator" || !e.mintR)), "a mint with a fresh id is refused only for a non-creator in a mint-restricted class")
 		return
 	}
 	verifCover("minted")
 	verifAssert(id != nfToken, "a token id is never reused while the token exists")
 	verifAssert(!e.mintR || who == "creator", "minting into a mint-restricted class is possible only for the class creator")
-	verifAssert(e.ownerOf(id).Equals(e.stranger), "the new token belongs to the recipient")
+	verifAssert(e.ownerOf(id).Equals(recipient), "the new token belongs to the recipient")
 }
 
 func VerifC14_Edit() {
